@@ -74,6 +74,7 @@ type vcInput struct {
 	SyncMax  int       `json:"syncmax"`   // max rounds allowed after GST
 	ByzAfter bool      `json:"byzafter"`  // Byzantine validators keep acting during the suffix
 	RandTail int       `json:"randtail"`  // random steps appended to every TLC schedule
+	Dups     int       `json:"dups"`      // every Dups-th delivery of a schedule (chosen by a hash of position and message) is made twice
 }
 
 // ---------------------------------------------------------------- net
@@ -175,6 +176,7 @@ type vcNet struct {
 	soup      map[string]vcItem // key(t,src,r,v) -> item (messages of correct nodes visible to the network)
 	soupKeys  []string
 	tmpdir    string
+	delivered []vcStep // messages handed to nodes so far (duplicates are drawn from here)
 	bound     int
 	gstOn     bool
 	plan      []vcStep // follow-up steps of a coordinated adversarial move (walker)
@@ -847,6 +849,14 @@ func (net *vcNet) step(w *vcWriter, run int, st vcStep) bool {
 	default:
 		return false
 	}
+	if st.Name == "Deliver" {
+		if m, okm := ev["m"].(vcMsg); okm {
+			net.delivered = append(net.delivered, vcStep{Name: "Deliver", N: st.N, M: m})
+			if len(net.delivered) > 400 {
+				net.delivered = net.delivered[200:]
+			}
+		}
+	}
 	n.drain()
 	ev["post"] = n.project()
 	out := n.out
@@ -957,6 +967,30 @@ func (net *vcNet) candidates(rng *rand.Rand) []vcCand {
 				w = 30
 			}
 			cands = append(cands, vcCand{vcStep{Name: "Deliver", N: nn, M: vcMsg{T: "block", Src: "-", R: -1, V: name, Pol: -2}}, w})
+		}
+		// +2/3 claims (VoteSetMaj23) from any peer, true or not, for rounds around the current one
+		if len(blocks) > 0 {
+			for k := 0; k < 2; k++ {
+				src := net.names[rng.Intn(len(net.names))]
+				if src == nn {
+					continue
+				}
+				r := int(cs.Round) - rng.Intn(2)
+				if r < 0 {
+					r = 0
+				}
+				t := []string{"claim_prevote", "claim_precommit"}[rng.Intn(2)]
+				cands = append(cands, vcCand{vcStep{Name: "Deliver", N: nn, M: vcMsg{T: t, Src: src, R: r, V: blocks[rng.Intn(len(blocks))], Pol: -2}}, 2})
+			}
+		}
+		// duplicates: something this node has been handed before
+		if len(net.delivered) > 0 {
+			for k := 0; k < 2; k++ {
+				d := net.delivered[rng.Intn(len(net.delivered))]
+				if d.N == nn {
+					cands = append(cands, vcCand{d, 2})
+				}
+			}
 		}
 		for _, b := range net.names {
 			if !net.byz[b] {
@@ -1106,6 +1140,14 @@ func TestVerifCons(t *testing.T) {
 		for si, st := range s.Steps {
 			if net.step(w, run, st) {
 				executed++
+				// duplication (C01 quantifies over it): the spec treats a second delivery as a no-op, so schedules
+				// derived from the spec never contain one; the choice depends only on position and message, so
+				// schedules that share a prefix still share it
+				if in.Dups > 0 && st.Name == "Deliver" && vcHash(si, vcKey(st.M)+st.N)%uint32(in.Dups) == 0 {
+					if net.step(w, run, st) {
+						executed++
+					}
+				}
 			} else {
 				skipped++
 				if skipLog != nil {
@@ -1155,6 +1197,14 @@ func TestVerifCons(t *testing.T) {
 	bz, _ := json.Marshal(stats)
 	_ = os.WriteFile(outDir+"/stats.json", bz, 0o644)
 	t.Logf("consensus driver: %v", stats)
+}
+
+func vcHash(i int, k string) uint32 {
+	h := uint32(2166136261)
+	for _, c := range []byte(strconv.Itoa(i) + "|" + k) {
+		h = (h ^ uint32(c)) * 16777619
+	}
+	return h
 }
 
 var _ = cfg.DefaultConfig
